@@ -15,6 +15,12 @@ package main
 //           gathered and the per-label-set counts read back
 //
 // The oracles group what was observed by the records' ACTUAL key tuples and are independent of the Coq model.
+//
+// Since the fix b1856f7 the key_* metric labels are the key values with the bytes that are not well-formed UTF-8
+// removed (base.MetricLabelValues): a LOSSY rendering. A pipeline is therefore never identified by its labels: the key
+// tuple a pipeline stands for is the tuple of the records that reach it, resp. for a pipeline without records
+// (created from a queue id found at startup) the key values its id splits into (c06AssignKeys). The labels have their
+// own oracle: position by position exactly the reference rendering of the pipeline's tuple (c06RefLabel).
 
 import (
 	"bytes"
@@ -27,8 +33,10 @@ import (
 	"strconv"
 	"strings"
 	"sync"
+	"sync/atomic"
 	"syscall"
 	"time"
+	"unicode/utf8"
 
 	"github.com/c2h5oh/datasize"
 	"github.com/relex/gotils/logger"
@@ -43,23 +51,37 @@ import (
 // ---------------------------------------------------------------------------------------------
 // recording doubles
 
-// c06MC records the label names/values handed to AddOrGetPrefix; the key values never reach the
-// underlying Prometheus registry as they are (invalid UTF-8 label values are another property's business):
-// the registry gets them hex-encoded, so that every pipeline still has its own metrics.
+// c06MC records the label names/values handed to AddOrGetPrefix and passes them on unchanged to the real registry
+// (before b1856f7 they had to be hex-encoded: raw key bytes as label values broke the registry, property C07).
+//
+// Every pipeline ("process_" prefix) additionally gets a label "c06pipe" with a running number, so that no two pipelines
+// share a series: key tuples that differ in ill-formed bytes only have equal key_* label values, and the hybrid buffer
+// keeps program state in its gauges (pending_chunks is Set(0) by every new bufferer and awaited by WaitPendingChunks in
+// SendAllAtEnd mode; persistent_chunk_bytes is read for the space limit). With shared series the SendAllAtEnd shutdown
+// of kind 5 - this harness's means of observing the deliveries - occasionally returns before a recovered chunk has been
+// handed to the consumer (seen: 4 of 360 runs under load). That coupling is not part of C06's statement; what is shared
+// on the real code is determined separately (design_notes/C06.md) and kind 4 runs without this wrapper.
 type c06MC struct {
 	promreg.MetricCreator
 	names  []string
 	values []string
 	onNew  func(prefix string, m *c06MC) // called for every sub-creator (inherited)
+	seq    *int64                        // pipelines created below the same root
 }
 
 func (m *c06MC) AddOrGetPrefix(prefix string, labelNames []string, labelValues []string) promreg.MetricCreator {
-	hexValues := make([]string, len(labelValues))
-	for i, v := range labelValues {
-		hexValues[i] = "x" + hex.EncodeToString([]byte(v))
+	regNames, regValues := labelNames, labelValues
+	if prefix == "process_" {
+		if m.seq == nil {
+			m.seq = new(int64)
+		}
+		k := atomic.AddInt64(m.seq, 1)
+		regNames = append(append([]string{}, labelNames...), "c06pipe")
+		regValues = append(append([]string{}, labelValues...), strconv.FormatInt(k, 10))
 	}
 	sub := &c06MC{
-		MetricCreator: m.MetricCreator.AddOrGetPrefix(prefix, labelNames, hexValues),
+		seq:           m.seq,
+		MetricCreator: m.MetricCreator.AddOrGetPrefix(prefix, regNames, regValues),
 		names:         append(append([]string{}, m.names...), labelNames...),
 		values:        append(append([]string{}, m.values...), labelValues...),
 		onNew:         m.onNew,
@@ -83,9 +105,10 @@ func (m *c06MC) keyLabels() []string {
 
 type c06Pipe struct {
 	id, tag string
-	labels  []string
-	records []int  // message numbers that arrived on this pipeline's channel
-	dir     string // kind 2: base name of the queue directory the bufferer attached to ("-" = root)
+	labels  []string // values of the key_* labels of the pipeline's metric creator (lossy: never used as identity)
+	keys    []string // the key tuple the pipeline stands for (c06AssignKeys); nil = none
+	records []int    // message numbers that arrived on this pipeline's channel
+	dir     string   // kind 2: base name of the queue directory the bufferer attached to ("-" = root)
 }
 
 type c06Recorder struct {
@@ -130,6 +153,73 @@ func c06EqTuple(a, b []string) bool {
 		}
 	}
 	return true
+}
+
+// c06RefLabel: what a key value looks like as a label value - the value without the bytes that do not belong to a
+// well-formed UTF-8 sequence; a valid value is the label value itself. Written with the decoder of unicode/utf8, not
+// with strings.ToValidUTF8 (which the implementation calls).
+func c06RefLabel(k string) string {
+	if utf8.ValidString(k) {
+		return k
+	}
+	var sb strings.Builder
+	for i := 0; i < len(k); {
+		r, size := utf8.DecodeRuneInString(k[i:])
+		if r == utf8.RuneError && size <= 1 {
+			i++ // an ill-formed byte: left out
+			continue
+		}
+		sb.WriteString(k[i : i+size])
+		i += size
+	}
+	return sb.String()
+}
+
+func c06RefLabels(t []string) []string {
+	out := make([]string, len(t))
+	for i, k := range t {
+		out[i] = c06RefLabel(k)
+	}
+	return out
+}
+
+// c06AssignKeys decides, without looking at the labels, which key tuple every pipeline stands for: the tuple of the
+// first record that reached it; a pipeline without records (started from an initial / recovered id) stands for the
+// n key values its id splits into (NewOrchestrator's contract for the ids found at startup), or for nothing.
+func c06AssignKeys(pipes []*c06Pipe, tuples [][]string, n int) {
+	for _, p := range pipes {
+		p.keys = nil
+		for _, r := range p.records {
+			if r >= 0 && r < len(tuples) {
+				p.keys = tuples[r]
+				break
+			}
+		}
+		if p.keys == nil && len(p.records) == 0 {
+			if ks := strings.Split(p.id, ","); len(ks) == n {
+				p.keys = ks
+			}
+		}
+	}
+}
+
+// c06CheckLabels: the pipeline's id is the ","-join of its tuple and its key_* labels are exactly the reference
+// rendering of its tuple (for a valid UTF-8 tuple: the tuple itself)
+func c06CheckLabels(pipes []*c06Pipe, ctx string) (fails []Fail) {
+	for _, p := range pipes {
+		if p.keys == nil {
+			continue
+		}
+		if p.id != strings.Join(p.keys, ",") {
+			// (a record routed to a pipeline that was created for another key tuple shows up here, and in its tag and labels)
+			fails = append(fails, Fail{"c06:id:wrong", fmt.Sprintf("%sthe pipeline that serves keys %s has id / queue name %q", ctx, c06Q(p.keys), p.id)})
+		}
+		if want := c06RefLabels(p.keys); !c06EqTuple(p.labels, want) {
+			fails = append(fails, Fail{"c06:labels:wrong", fmt.Sprintf("%sthe pipeline that serves keys %s (id %q) has metric labels %s, its own values give %s",
+				ctx, c06Q(p.keys), p.id, c06Q(p.labels), c06Q(want))})
+		}
+	}
+	return fails
 }
 
 // tupleKey is an injective encoding of a tuple, used only by the oracle to group records
@@ -500,6 +590,7 @@ func c06RunRoute(c *Case) (out string, fails []Fail) {
 	out = "ok:" + c06PipesOut(rec.pipes, false) + "#" + strings.Join(ws, ",")
 
 	// ---- oracle: every record is in a pipeline that was created for exactly its own key tuple ----
+	c06AssignKeys(rec.pipes, tuples, n)
 	parts, refOK := c06RefParse(tmpl, names)
 	if !refOK {
 		fails = append(fails, Fail{"c06:tmpl:accepted", fmt.Sprintf("template %q over %q accepted but not a documented template", tmpl, names)})
@@ -510,10 +601,10 @@ func c06RunRoute(c *Case) (out string, fails []Fail) {
 			continue
 		}
 		p := rec.pipes[where[i]]
-		if !c06EqTuple(p.labels, t) {
-			fails = append(fails, Fail{"c06:pipeline-shared:" + c06PairClass(p.labels, t),
-				fmt.Sprintf("record with keys %s was routed to the pipeline created for %s (id %q tag %q); template %q",
-					c06Q(t), c06Q(p.labels), p.id, p.tag, tmpl)})
+		if !c06EqTuple(p.keys, t) {
+			fails = append(fails, Fail{"c06:pipeline-shared:" + c06PairClass(p.keys, t),
+				fmt.Sprintf("record with keys %s was routed to the pipeline that serves %s (id %q tag %q); template %q",
+					c06Q(t), c06Q(p.keys), p.id, p.tag, tmpl)})
 			continue
 		}
 		if refOK {
@@ -522,22 +613,18 @@ func c06RunRoute(c *Case) (out string, fails []Fail) {
 			}
 		}
 	}
+	fails = append(fails, c06CheckLabels(rec.pipes, "")...)
 	fails = append(fails, c06CheckPipes(rec.pipes, "")...)
 	// no phantom pipelines: every pipeline was created for the key values of a record or of an initial id of arity n
 	for _, p := range rec.pipes {
-		ok := false
-		for _, t := range tuples {
-			if c06EqTuple(p.labels, t) {
-				ok = true
-			}
-		}
+		ok := len(p.records) > 0 && p.keys != nil // it serves the records of its tuple
 		for _, id := range inits {
-			if keys := strings.Split(id, ","); len(keys) == n && c06EqTuple(p.labels, keys) {
+			if keys := strings.Split(id, ","); len(keys) == n && p.id == id && c06EqTuple(p.keys, keys) {
 				ok = true
 			}
 		}
 		if !ok {
-			fails = append(fails, Fail{"c06:pipeline-phantom", fmt.Sprintf("pipeline for keys %s (id %q) belongs to no record and no initial id", c06Q(p.labels), p.id)})
+			fails = append(fails, Fail{"c06:pipeline-phantom", fmt.Sprintf("pipeline with id %q (labels %s) belongs to no record and no initial id", p.id, c06Q(p.labels))})
 		}
 	}
 	// initial ids (queues found at startup): an id that splits into n key values must have a pipeline for exactly these values
@@ -548,7 +635,7 @@ func c06RunRoute(c *Case) (out string, fails []Fail) {
 		}
 		found := false
 		for _, p := range rec.pipes {
-			if c06EqTuple(p.labels, keys) {
+			if p.keys != nil && c06EqTuple(p.keys, keys) {
 				found = true
 			}
 		}
@@ -564,15 +651,18 @@ func c06CheckPipes(pipes []*c06Pipe, ctx string) (fails []Fail) {
 	byTuple := map[string]*c06Pipe{}
 	byID := map[string]*c06Pipe{}
 	for _, p := range pipes {
-		k := c06TupleKey(p.labels)
+		if p.keys == nil {
+			continue
+		}
+		k := c06TupleKey(p.keys)
 		if q, dup := byTuple[k]; dup {
-			fails = append(fails, Fail{"c06:pipeline-duplicate", fmt.Sprintf("%stwo pipelines for keys %s (ids %q, %q)", ctx, c06Q(p.labels), q.id, p.id)})
+			fails = append(fails, Fail{"c06:pipeline-duplicate", fmt.Sprintf("%stwo pipelines for keys %s (ids %q, %q)", ctx, c06Q(p.keys), q.id, p.id)})
 		} else {
 			byTuple[k] = p
 		}
-		if q, dup := byID[p.id]; dup && !c06EqTuple(q.labels, p.labels) {
-			fails = append(fails, Fail{"c06:id-collision:" + c06PairClass(q.labels, p.labels),
-				fmt.Sprintf("%skey sets %s and %s get the same pipeline id / queue name %q", ctx, c06Q(q.labels), c06Q(p.labels), p.id)})
+		if q, dup := byID[p.id]; dup && !c06EqTuple(q.keys, p.keys) {
+			fails = append(fails, Fail{"c06:id-collision:" + c06PairClass(q.keys, p.keys),
+				fmt.Sprintf("%skey sets %s and %s get the same pipeline id / queue name %q", ctx, c06Q(q.keys), c06Q(p.keys), p.id)})
 		} else if !dup {
 			byID[p.id] = p
 		}
@@ -794,6 +884,10 @@ func c06RunDisk(c *Case) (out string, fails []Fail) {
 	out = "ok:" + strings.Join(aparts, ";") + "#" + strings.Join(dparts, ";") + "#" + strings.Join(lparts, ";") + "#" + c06PipesOut(recC.pipes, true)
 
 	// ---- oracle ----
+	c06AssignKeys(recA.pipes, tuples, n)
+	c06AssignKeys(recC.pipes, nil, n) // recovered pipelines: the key values their (listed) id splits into
+	fails = append(fails, c06CheckLabels(recA.pipes, "")...)
+	fails = append(fails, c06CheckLabels(recC.pipes, "after restart: ")...)
 	// (1) a queue directory holds the chunks of one key tuple only
 	whereDir := map[int]string{} // record -> dir ("-" root)
 	check := func(dname string, chunks []int) {
@@ -851,10 +945,10 @@ func c06RunDisk(c *Case) (out string, fails []Fail) {
 			continue
 		}
 		for _, p := range ps {
-			if !c06EqTuple(p.labels, t) {
+			if !c06EqTuple(p.keys, t) {
 				reported[k] = true
-				fails = append(fails, Fail{"c06:recovery-foreign:" + c06PairClass(p.labels, t),
-					fmt.Sprintf("chunks of key set %s in %q are reattached to the pipeline of %s", c06Q(t), c06Unhex(d), c06Q(p.labels))})
+				fails = append(fails, Fail{"c06:recovery-foreign:" + c06PairClass(p.keys, t),
+					fmt.Sprintf("chunks of key set %s in %q are reattached to the pipeline of %s (id %q)", c06Q(t), c06Unhex(d), c06Q(p.keys), p.id)})
 			}
 		}
 	}
@@ -1023,7 +1117,11 @@ func c06RunMetric(c *Case) (out string, fails []Fail) {
 	if panicked {
 		return "panic", []Fail{{"c06:metric:panic", fmt.Sprintf("SelectMetricKeySet panics on %q", tuples)}}
 	}
-	mfs, _ := factory.Gather()
+	mfs, gerr := factory.Gather()
+	if gerr != nil {
+		// the label values come from MetricLabelValues and must be acceptable to the registry whatever the key bytes are
+		return "err:gather", []Fail{{"c06:metric:gather-failed", fmt.Sprintf("Gather fails after metric keys %q: %v", tuples, gerr)}}
+	}
 	type cnt struct{ passed, labelled int }
 	got := map[string]*cnt{}
 	tupOf := map[string][]string{}
@@ -1068,26 +1166,64 @@ func c06RunMetric(c *Case) (out string, fails []Fail) {
 		ss[i] = strconv.Itoa(s)
 	}
 	out = "ok:" + strings.Join(ss, ",") + "#" + strings.Join(mparts, ";")
-	// oracle: each key tuple has its own label set carrying exactly its own records
-	want := map[string]int{}
-	for _, t := range tuples {
-		want[c06HexTuple(t)]++
-	}
-	for _, t := range tuples {
-		k := c06HexTuple(t)
-		w := want[k]
-		if w == 0 {
-			continue
+	// oracle (1): the counter set (map entry) handed out for a record is the one of exactly its own key tuple:
+	// two records share a counter set iff their tuples are equal
+	firstOf := map[int]int{}  // counter set -> first record that selected it
+	setOf := map[string]int{} // tuple -> counter set of its first record
+	for i, t := range tuples {
+		if j, seen := firstOf[sel[i]]; seen && !c06EqTuple(tuples[j], t) {
+			class := "other"
+			if strings.Join(tuples[j], "") == strings.Join(t, "") {
+				class = "concat"
+			}
+			fails = append(fails, Fail{"c06:metric-shared:" + class,
+				fmt.Sprintf("records with metric keys %s and %s are counted by the same counter set", c06Q(tuples[j]), c06Q(t))})
+		} else if !seen {
+			firstOf[sel[i]] = i
 		}
-		want[k] = 0
-		g := got[k]
+		k := c06TupleKey(t)
+		if s0, seen := setOf[k]; seen && s0 != sel[i] {
+			fails = append(fails, Fail{"c06:metric:split", fmt.Sprintf("records with metric keys %s are counted by two counter sets", c06Q(t))})
+		} else if !seen {
+			setOf[k] = sel[i]
+		}
+	}
+	// oracle (2): the exported series. Its key_* label values are the reference rendering of the key values (the values
+	// themselves when they are valid UTF-8), and it carries exactly the records of the tuples that render to it
+	want := map[string]int{}
+	from := map[string][][]string{}
+	for _, t := range tuples {
+		k := c06HexTuple(c06RefLabels(t))
+		if want[k] == 0 {
+			tupOf[k] = c06RefLabels(t)
+		}
+		want[k]++
+		dup := false
+		for _, t2 := range from[k] {
+			if c06EqTuple(t2, t) {
+				dup = true
+			}
+		}
+		if !dup {
+			from[k] = append(from[k], t)
+		}
+	}
+	wkeys := make([]string, 0, len(want))
+	for k := range want {
+		wkeys = append(wkeys, k)
+	}
+	sort.Strings(wkeys)
+	for _, k := range wkeys {
+		w, g := want[k], got[k]
 		if g == nil || g.passed != w || g.labelled != w {
 			other := ""
 			class := "other"
-			for _, t2 := range tuples {
-				if !c06EqTuple(t2, t) && strings.Join(t2, "") == strings.Join(t, "") {
-					other = c06Q(t2)
-					class = "concat"
+			for _, t := range from[k] {
+				for _, t2 := range tuples {
+					if !c06EqTuple(t2, t) && strings.Join(t2, "") == strings.Join(t, "") && c06HexTuple(c06RefLabels(t2)) != k {
+						other = c06Q(t2)
+						class = "concat"
+					}
 				}
 			}
 			gs := "none"
@@ -1095,12 +1231,12 @@ func c06RunMetric(c *Case) (out string, fails []Fail) {
 				gs = fmt.Sprintf("passed=%d labelled=%d", g.passed, g.labelled)
 			}
 			fails = append(fails, Fail{"c06:metric-shared:" + class,
-				fmt.Sprintf("%d records with metric keys %s: label set has %s (same concatenation as %s)", w, c06Q(t), gs, other)})
+				fmt.Sprintf("%d records with metric keys %s (label values %s): the series has %s (same concatenation as %s)", w, fmt.Sprintf("%q", from[k]), c06Q(tupOf[k]), gs, other)})
 		}
 	}
-	for k, g := range got {
-		if _, ok := want[k]; !ok && (g.passed > 0 || g.labelled > 0) {
-			fails = append(fails, Fail{"c06:metric:phantom", fmt.Sprintf("label set %s counted but no record has it", c06Q(tupOf[k]))})
+	for _, k := range keys {
+		if g := got[k]; want[k] == 0 && (g.passed > 0 || g.labelled > 0) {
+			fails = append(fails, Fail{"c06:metric:phantom", fmt.Sprintf("series with label values %s counted but no record's metric keys render to it", c06Q(tupOf[k]))})
 		}
 	}
 	return out, fails
